@@ -74,6 +74,11 @@ impl CompressionCodec {
             CompressionCodec::Snappy => {
                 // Each compressed block is followed by the 4-byte, big-endian CRC32
                 // checksum of the uncompressed data in the block.
+                if block.len() < 4 {
+                    return Err(AvroError::ParseError(
+                        "Snappy block is too short to hold its CRC32 checksum".to_string(),
+                    ));
+                }
                 let crc = &block[block.len() - 4..];
                 let block = &block[..block.len() - 4];
 
